@@ -28,6 +28,7 @@ from sa.symex import Interp
 
 RULES = {
     "R-C02-j": "the index-cube fill closures come in a traced and an untraced variant (timing diagnostics): both store the same cell values",
+    "R-C02-k": "per configuration, a region that receives weight values is a float region and one that receives fact values is float or has the summed array's dtype (an integer region truncates on the store)",
     "R-C02-i": "pooled evaluation: reduce (marginal differencing) runs only after every sub-cube task has finished - blocking, re-raising dispatch on a pool created for the call (imported from the C16 analysis)",
     "R-C02-h": "every region an aggregate allocates is 64-bit int/float (or the fact array's own dtype): wide enough for any row count and for the negative intermediate values of marginal differencing",
     "R-C02-g": "every sub-cube task walks its dimensions: the task function has no early return (one taken only when NO dimension has an entry is harmless; one taken when SOME dimension has none skips the margins of the others)",
@@ -219,6 +220,11 @@ def main(tier):
     for rule, status, where, cons, detail, wit in CD.items:
         rep.add(rule, where, cons, status, detail, True, wit)
     rep.floor("R-C02-h", 4, nd)
+    CK = AT.Collector()
+    nk = AT.rule_region_kind(prog, CK, "R-C02-k", modules=("ffuncs",), classes=("count",))
+    for rule, status, where, cons, detail, wit in CK.items:
+        rep.add(rule, where, cons, status, detail, True, wit)
+    rep.floor("R-C02-k", 10, nk)
     rule_g(prog, rep)
     import c16
     sub16 = core.Report("C16", level="other", rules=c16.RULES, tier=tier)
